@@ -862,7 +862,8 @@ func propC11() *lib.Prop {
 			cs = append(cs, lib.Case{Header: "M C11 0 1 2 1", Tags: []string{"loop", "multiop", "runner-redeploy"},
 				Ops: []string{"lread 50:6b", "ldrain", "ltick", "ldrain", "ldeploy", "ltick", "ldrain", "lread 10:61", "ldrain", "ltick", "ldrain", "lread 60:6b", "ldrain", "ltick", "ldrain"}})
 			// before any watermark message the handler is told time.Time{}; a runner that saw no event reports below the epoch
-			cs = append(cs, lib.Case{Header: "M C11 0 2 2 1", Tags: []string{"initial"},
+			// (regression case of finding D58, repaired by 204a1f7: before any watermark message the handler is told the epoch)
+			cs = append(cs, lib.Case{Header: "M C11 0 2 2 1", Tags: []string{"initial", "D58"},
 				Ops: []string{"tick", "keyed 0 6b 5", "keyed 1 6b 0", "wm 0 10", "keyed 0 61 -", "wm 1 -62135596800000000001", "keyed 0 61 -", "keyed 0 61 -", "wm 1 7", "keyed 0 61 -"}})
 			return cs
 		},
